@@ -85,7 +85,9 @@ def gen_cases(tier, rng):
             B = max(1, len(set(tuple(x // 16 for x in p) for p in sn)) // rng.choice([1, 1, 2, 3]))
         stop = rng.choice([2, 2, 2, 0, 1])
         flags = rng.choice([[63], [63], [63], [6, 8, 48, 1], [2, 4, 8, 16, 32, 1], [30, 33], [6, 9, 48], [1, 2, 4, 8, 16, 32], [14, 16, 33]])
-        cases.append(case_text(d, 0, H, B, rng.below(2), stop, flags, sn, tn))
+        per = 1 if (d <= 3 and rng.below(6) == 0) else 0       # periodic ordering inside the box: upper level 1 as the library uses it
+        if per: stop = 1
+        cases.append(case_text(d, per, H, B, rng.below(2), stop, flags, sn, tn))
     return cases
 
 
@@ -105,12 +107,13 @@ def tsm_oracle(c, parts, trace_filter=lambda x: True):
     R = {}
     for tok in parts[3].split()[1:]:
         k, v = tok.split("="); R[int(k)] = int(v)
-    tot = sum(A.weight(p) for p in range(S.N)) & A.M64
+    images = 3 ** S.d if S.per else 1       # periodic lists from level 1 down: every source once per adjacent copy of the box
+    tot = (images * sum(A.weight(p) for p in range(S.N))) & A.M64
     if sorted(R) != list(range(Tg.N)):
         return "results for targets %s" % sorted(R)[:10]
     for p in range(Tg.N):
         if R[p] != tot:
-            return "target %d accumulated %d, one contribution from every source is %d" % (p, R[p], tot)
+            return "target %d accumulated %d, one contribution from every source%s is %d" % (p, R[p], " image of the 3^d adjacent copies" if S.per else "", tot)
     # free-kernel replay: each source exactly once per target
     if S.N * Tg.N <= 6000:
         mult, loc, rhs = {}, {}, {p: Counter() for p in range(Tg.N)}
@@ -129,7 +132,7 @@ def tsm_oracle(c, parts, trace_filter=lambda x: True):
                 for p in cl.tparts: rhs[p].update(cl.sparts)
         for p in range(Tg.N):
             for q in range(S.N):
-                if rhs[p].get(q, 0) != 1:
+                if rhs[p].get(q, 0) != images:
                     return "target %d received source %d %d times" % (p, q, rhs[p].get(q, 0))
     return None
 
